@@ -80,7 +80,8 @@ fn long_extend(seeds: u64, config: &cgt_core::Config, cnt: &mut Counters) -> Vec
             if m == 12 {
                 fund.push(Transaction { date: d(y, 12, 31), ticker: "FUND".into(), operation: Operation::Accumulation { amount: Decimal::from(held), total_value: gbp(rng.gen_range(300..900)), tax_paid: gbp(0) } });
             }
-            if k % 11 == 7 && held > 30 {
+            // (every third ledger has no sale before the last one: all 66+ lots stay open until then)
+            if seed % 3 != 0 && k % 11 == 7 && held > 30 {
                 let sq = rng.gen_range(10..=25);
                 fund.push(Transaction { date: d(y, m, 16), ticker: "FUND".into(), operation: Operation::Sell { amount: Decimal::from(sq), price: gbp(rng.gen_range(1000..1500)), fees: gbp(100) } });
                 held -= sq;
